@@ -132,7 +132,10 @@ func genC16(g *G, n int, out io.Writer, exhaustive bool) {
 		"ex.a,", "ex.a\"", "ex.a | ex.b^ / (ex.c|@type)", "ex.a*", "ex.a^", "ex.a ^", "ex.a^^", "ex.a^*", "@type", "@type^", "@typ", "@types",
 		"ex.a|ex.b/ex.c", "ex.a/ex.b", "ex.a /ex.b", "ex.a/ ex.b", "ex.a|", "|ex.a", "/ex.a", "ex.a/", "ex.a |", "ex", "ex.", ".a", "ex..a",
 		"((ex.a))", "((ex.a) / (ex.b))", "(ex.a | ex.b) | ex.c", "ex.a | (ex.b | ex.c)", "(ex.a / ex.b) / ex.c", "ex.a / (ex.b / ex.c)",
-		"ex.a\n/\nex.b", "ex.a\t|\tex.b", "ex.a  / ex.b", "é.a", "ex.é", "ex.a / ex.b ^ | ex.c *"}
+		"ex.a\n/\nex.b", "ex.a\t|\tex.b", "ex.a  / ex.b", "é.a", "ex.é", "ex.a / ex.b ^ | ex.c *",
+		// redundant parentheses to any depth, operator-dense spellings without a single blank, an identifier glued to @type
+		"(((a.b)))", "((((ex.a))))", "(((((@type)))))", "((((((((core.name))))))))", "(a.b)/(c.d)/(e.f)/(g.h)", "((a.b|c.d))/((e.f))", "(((a.b|c.d)))|(((e.f)))",
+		"a.b|c.d|e.f|g.h|i.j|k.l|m.n|o.p", "(a.b^)/(c.d^)/(e.f^)", "x@type", "core@type", "a.b / rdf@type", "(no-dot@type | a.b)"}
 	for _, s := range fixed {
 		emit("fixed", s)
 		if exhaustive || len(s) < 14 {
